@@ -73,6 +73,27 @@ CLAIMED = {
              "a ~60-value pool, bit-exact.",
         design_ref="DESIGN.md 5 C10",
     ),
+    'C19': dict(
+        technique="Coq proof over a model regenerated from excellib.py by the Python-AST translator (exact "
+                  "rational arithmetic), plus extracted-model/implementation differential run on decimal and "
+                  "float-exact inputs",
+        text="Gen/excellib.v (ceiling, floor, .MATH/.PRECISE variants, even, odd, int_, mod, round_, _round, "
+             "rounddown, roundup, trunc, sign) is re-translated from /repo/src/pycel/excellib.py on every run; the "
+             "Decimal(repr(x)).quantize(...) idiom is mapped to exact decimal rounding. Proved for ALL rationals x "
+             "and ALL integer digit counts d (positive, zero, negative), all closed under the global context: "
+             "ROUND(x,d) = z*10^-d with z the nearest integer to x*10^d, ties away from zero (C19_round); "
+             "ROUNDDOWN/TRUNC toward zero, ROUNDUP away from zero to such a multiple, TRUNC = ROUNDDOWN, exact "
+             "multiples fixed; INT = floor; MOD: n = d*INT(n/d)+MOD, sign of d, |MOD|<|d|, d=0 -> #DIV/0!; for "
+             "positive significance FLOOR <= x <= CEILING, both multiples of s, less than s from x; #NUM! for "
+             "positive x with negative significance; CEILING/FLOOR.PRECISE = |s|*ceil/floor(x/|s|); EVEN = next "
+             "even integer away from zero (bracket), ODD closed form. The float-level behaviour (TRUNC(0.29,2), "
+             "decimal ties) is carried by the differential run: ~58k calls per quick run through apply_meta, decimal "
+             "inputs k/10^j with generated ties/near-ties compared against the correctly rounded exact result, "
+             "float-exact inputs bit for bit, and by the property oracle (decimal half-away-from-zero on the "
+             "shortest rendering). Not proved: CEILING/FLOOR.MATH mode variants, ODD bracket, SIGN/ABS "
+             "(correspondence only).",
+        design_ref="DESIGN.md 5 C19",
+    ),
     'C20': dict(
         technique="Coq proof over a model regenerated from text.py by the Python-AST translator (slicing/search "
                   "functions) under a hand-written model of the apply_meta wrappers, hand-written models of "
